@@ -113,7 +113,7 @@ class CasJsonDeserializer:
         self._post_processors = []
 
         if merge_typesystem:
-            json_typesystem = data.get(TYPES_FIELD)
+            json_typesystem = data.get(TYPES_FIELD) or {}
             embedded_typesystem = TypeSystem(
                 add_document_annotation_type=not (json_typesystem.get(FLAG_DOCUMENT_ANNOTATION))
             )
